@@ -783,6 +783,16 @@ OPAQUE_FN = {
 # result type of an OPAQUE_FN callee when it is not bytes (record mode only)
 OPAQUE_FN_RET = {"extract_av1_config": "Option<Av1Config>"}
 OPAQUE_FN["extract_av1_config"] = "the AV1 sequence-header parser (bit reader, loops); modelled by Model/Codec.v extract_av1_config"
+# OPAQUE_ITER: an iterator constructor `for x in T::new(param)` ranges over: the sequence of items it yields is a
+# parameter (a Gallina list, FIRST binder of the translation); the item type is read from `type Item = ..` of the
+# `impl Iterator for T` in the given file; the argument must be a byte-slice parameter of the translated function
+# (it is named in the NOT TRANSLATED comment: the agreement theorem instantiates the list with the model's iterator
+# applied to that same parameter).
+OPAQUE_ITER = {
+    "AnnexBNalIter::new": ("nals", "src/codec/common.rs",
+                           "the start-code scanner (find_start_code + Iterator::next, a state machine over the cursor); "
+                           "modelled by Model/Annexb.v nal_iter"),
+}
 OPAQUE = {
     "build_hvcc_fmp4": "constructs a HevcConfig",
     "build_av1c_fmp4": "calls the AV1 sequence-header parser",
@@ -1074,6 +1084,17 @@ class Ctx:
             return ("enum", m.group(1))
         return ("other", t)
 
+    def iter_item(self, file, sname):
+        """descriptor of `type Item = T;` in `impl Iterator for sname` of `file` (read on demand, comments removed)"""
+        try:
+            text = re.sub(r"//[^\n]*", "", open(self.repo + "/" + file).read())
+        except (OSError, UnicodeDecodeError) as e:
+            raise Unsupported("cannot read %s: %s" % (file, e))
+        ms = re.findall(r"\bimpl\s*(?:<[^>]*>)?\s*Iterator\s+for\s+%s\s*(?:<[^>]*>)?\s*\{\s*type\s+Item\s*=\s*([^;{}]+);" % re.escape(sname), text)
+        if len(ms) != 1:
+            raise Unsupported("%d `impl Iterator for %s` with an Item type in %s" % (len(ms), sname, file))
+        return self.tydesc(re.sub(r"'[a-z_]+\s*", "", ms[0]).strip())
+
     def struct_fields(self, name):
         defs = self.structs.get(name.split("::")[-1], [])
         if len(defs) != 1:
@@ -1116,11 +1137,11 @@ class Sig:
 
 
 class State:
-    def __init__(self, vars_):
-        self.vars = vars_
+    def __init__(self, vars_, forked=False):
+        self.vars, self.forked = vars_, forked
 
     def fork(self):
-        return State(dict((k, (("buf", list(v[1])) if v[0] == "buf" else v)) for k, v in self.vars.items()))
+        return State(dict((k, (("buf", list(v[1])) if v[0] == "buf" else v)) for k, v in self.vars.items()), True)
 
 
 class ByteBuilder:
@@ -1137,6 +1158,8 @@ class ByteBuilder:
         self.pre = []            # asserted conditions (Gallina bool); None once one of them could not be translated
         self.noshare = False
         self.st = None
+        self.leading = []        # abstracted iterator parameters (OPAQUE_ITER): binders placed before the Rust parameters
+        self.byte_params = set() # Gallina names of the byte-slice parameters of the function
 
     # ---- environment interface used by P --------------------------------------------------------------
     def parse(self, toks, ex=None):
@@ -1522,7 +1545,12 @@ class ByteBuilder:
                 r = R("num", r[1], declared)
             return self.share(name, r)
         if v[0] == "buf":
-            return self.share(name, R("bytes", self.join(v[1])))
+            r = self.share(name, R("bytes", self.join(v[1])))
+            if r[1].startswith("\u2039") and not self.st.forked:
+                # the contents so far ARE that shared term: a later read shares it too (one `let`).  Not inside a
+                # branch / loop body: there the buffer is compared with its contents before the block.
+                v[1][:] = [r[1]]
+            return r
         if v[0] == "struct":
             return R("struct", v[2] if len(v) > 2 else name, info=v[1])
         if v[0] == "vec":
@@ -1725,6 +1753,8 @@ class ByteBuilder:
         if name == "Vec::new":
             p.eat("("); p.eat(")")
             return R("bytes", "[]")
+        if "::".join(name.split("::")[-2:]) in OPAQUE_ITER:
+            return self.iter_param("::".join(name.split("::")[-2:]), p)
         if base == "build_box":
             if (self.file, "build_box") not in self.ctx.sigs:
                 raise Unsupported("build_box of %s is not translated" % self.file)
@@ -1823,6 +1853,25 @@ class ByteBuilder:
         p.eat(")")
         args += [o[0] for o in sig.opaque]
         return R("bytes", "(%s)" % " ".join([sig.coq] + args) if args else sig.coq)
+
+    def iter_param(self, key, p):
+        """T::new(param) of OPAQUE_ITER: the list of the items the iterator yields, as a parameter"""
+        pn, file, why = OPAQUE_ITER[key]
+        p.eat("(")
+        a = p.expr()
+        p.eat(")")
+        if a[0] != "bytes" or a[1] not in self.byte_params:
+            raise Unsupported("%s(..) over something other than a byte-slice parameter of %s" % (key, self.name))
+        d = ("list", self.ctx.iter_item(file, key.split("::")[0]))
+        cty = coq_type(d)
+        callee = "%s(%s)" % (key, a[1])
+        prev = [o for o in self.opaque if o[0] == pn]
+        if prev and (prev[0][1] != callee or prev[0][3] != cty):
+            raise Unsupported("two different iterators (%s, %s) would share the parameter %s" % (prev[0][1], callee, pn))
+        if not prev:
+            self.opaque.append((pn, callee, why, cty))
+            self.leading.append(pn)
+        return R("dyn", pn, info=d)
 
     # ---- sharing: a local that is read several times becomes a Gallina `let`, otherwise it is inlined ----
     def share(self, name, r):
@@ -2099,7 +2148,7 @@ class ByteBuilder:
         saved_ns, saved_pre = self.noshare, self.pre
         self.st, self.noshare, self.pre = st1, True, (None if saved_pre is None else [])
         try:
-            r = self.run(body, False)
+            r = self.run(body, False, "top")
         finally:
             inner_pre = self.pre
             self.st, self.noshare, self.pre = base, saved_ns, saved_pre
@@ -2298,9 +2347,27 @@ class ByteBuilder:
         r = self.value(toks)
         return P([], {}, env=self).bytes_of(r)
 
-    def run(self, stmts, top):
-        """-> ("ret", Gallina bytes) | ("fall",)"""
+    def merge_if(self, base, c, st1, st2):
+        """after `if c { .. } else { .. }` run on the forks st1 / st2 of base: every buffer gets `if c then A else B`"""
+        for name, v in base.vars.items():
+            if v[0] != "buf":
+                continue
+            old, n1, n2 = v[1], st1.vars[name][1], st2.vars[name][1]
+            if n1[:len(old)] != old or n2[:len(old)] != old:
+                raise Unsupported("buffer %s is not only appended to inside an if" % name)
+            e1, e2 = n1[len(old):], n2[len(old):]
+            if e1 or e2:
+                old.append("(if %s then %s else %s)" % (c[1], self.join(e1), self.join(e2)))
+
+    def run(self, stmts, top, loop=None):
+        """-> ("ret", Gallina bytes) | ("fall",) | ("cont",)
+        loop: "top" at the top level of the body of a flat_map loop, "nested" in an `if` block below it, else None;
+        ("cont",): the block ended in `continue` (only with loop set)"""
         for k, s in enumerate(stmts):
+            if s[0] in ("expr", "tail") and list(s[1]) == ["continue"]:
+                if not loop:
+                    raise Unsupported("`continue` outside the body of a loop over a list that appends to byte buffers")
+                return ("cont",)                                 # the statements after it are dead code
             if s[0] == "let":
                 self.do_let(s[1])
             elif s[0] == "expr":
@@ -2340,8 +2407,34 @@ class ByteBuilder:
                 if c[0] != "bool":
                     raise Unsupported("if condition is not boolean: %s" % show(s[1]))
                 base = self.st
-                self.st = st1 = base.fork(); r1 = self.run(s[2], False)
-                self.st = st2 = base.fork(); r2 = self.run(s[3], False) if s[3] is not None else ("fall",)
+                inner = "nested" if loop else None
+                try:
+                    self.st = st1 = base.fork(); r1 = self.run(s[2], False, inner)
+                    self.st = st2 = base.fork(); r2 = self.run(s[3], False, inner) if s[3] is not None else ("fall",)
+                except Unsupported:
+                    self.st = base
+                    raise
+                if "cont" in (r1[0], r2[0]) and "ret" not in (r1[0], r2[0]):
+                    # a path that ends in `continue` appends nothing more in this iteration; a path that falls
+                    # through runs the rest of THIS block.  What follows the enclosing block must run on every
+                    # path or on none: at the top level of the loop body nothing follows.
+                    ends = []
+                    try:
+                        for r, st in ((r1, st1), (r2, st2)):
+                            if r[0] == "cont":
+                                ends.append("cont")
+                            else:
+                                self.st = st
+                                rr = self.run(stmts[k + 1:], False, loop)
+                                if rr[0] == "ret":
+                                    raise Unsupported("return inside a loop")
+                                ends.append(rr[0])
+                    finally:
+                        self.st = base
+                    if loop != "top" and ends != ["cont", "cont"]:
+                        raise Unsupported("`continue` on only some of the paths through a nested block")
+                    self.merge_if(base, c, st1, st2)
+                    return ("fall",) if loop == "top" else ("cont",)
                 if r1[0] == "ret" or r2[0] == "ret":
                     if not top:
                         self.st = base
@@ -2359,15 +2452,7 @@ class ByteBuilder:
                     self.st = base
                     return ("ret", "(if %s then %s else %s)" % (c[1], outs[0], outs[1]))
                 self.st = base
-                for name, v in base.vars.items():
-                    if v[0] != "buf":
-                        continue
-                    old, n1, n2 = v[1], st1.vars[name][1], st2.vars[name][1]
-                    if n1[:len(old)] != old or n2[:len(old)] != old:
-                        raise Unsupported("buffer %s is not only appended to inside an if" % name)
-                    e1, e2 = n1[len(old):], n2[len(old):]
-                    if e1 or e2:
-                        old.append("(if %s then %s else %s)" % (c[1], self.join(e1), self.join(e2)))
+                self.merge_if(base, c, st1, st2)
             else:
                 raise Unsupported("internal: statement %s" % s[0])
         return ("fall",)
@@ -2390,6 +2475,8 @@ class ByteBuilder:
                 vars_[pn] = ("val", R("num", coq_ident(pn), ty))
             elif kind in ("bool", "bytes", "optstr"):
                 vars_[pn] = ("val", R(kind, coq_ident(pn)))
+                if kind == "bytes":
+                    self.byte_params.add(coq_ident(pn))
             elif kind == "str":
                 vars_[pn] = ("val", R("bytes", coq_ident(pn)))
             elif kind == "struct" and not self.rec:
@@ -2432,7 +2519,9 @@ class ByteBuilder:
                     prm["fields"].append(m_)
                     binders.append("(%s : %s)" % (coq_ident("%s_%s" % (prm["name"], m_[:-2])), {"int": "N", "bool": "bool"}[self.method_kind[(prm["name"], m_[:-2])]]))
         for pn, callee, why, cty in self.opaque:
-            binders.append("(%s : %s)" % (pn, cty))
+            if pn not in self.leading:
+                binders.append("(%s : %s)" % (pn, cty))
+        binders = ["(%s : %s)" % (pn, cty) for pn, callee, why, cty in self.opaque if pn in self.leading] + binders
         names = [b.split()[0][1:] for b in binders]
         if len(set(names)) != len(names):
             raise Unsupported("parameter names collide after flattening: %s" % names)
@@ -2566,6 +2655,9 @@ BUILDERS = [
     (FRAG, "build_moof_with_offset", "build_moof_with_offset_src", "rec"),
     (FRAG, "build_moof", "build_moof_src", "rec"),
     (FRAG, "build_media_segment", "build_media_segment_src", "rec"),
+    # Annex B -> length-prefixed re-framing; the NAL iterator is abstract (OPAQUE_ITER): parameter `nals`
+    ("src/codec/h264.rs", "annexb_to_avcc", "annexb_to_avcc_src"),
+    ("src/codec/h265.rs", "hevc_annexb_to_hvcc", "hevc_annexb_to_hvcc_src"),
 ]
 SOURCE_FILES = [MP4, FRAG, "src/api.rs", "src/codec/opus.rs", "src/codec/vp9.rs", "src/codec/av1.rs", "src/codec/h264.rs", "src/codec/h265.rs"]
 
